@@ -442,6 +442,7 @@ fn run_meta(size: u64, sink: &mut Sink) -> (Verdict, Option<u64>, Value) {
     let dir = TempDir::new("c18m");
     let path = dir.0.join("f");
     make_file(&path, size);
+    let link = dir.0.join("f-link");
     let fail = |sig: &str, msg: String| (Verdict::viol(sig.to_string(), msg), None, desc.clone());
     let open = |p: &Path| -> Result<Crf, String> {
         let f = File::open(p).map_err(|e| e.to_string())?;
@@ -466,6 +467,42 @@ fn run_meta(size: u64, sink: &mut Sink) -> (Verdict, Option<u64>, Value) {
             return Ok(Some(("etag-unstable".into(), format!("two instances on the unmodified file: {:?} vs {:?}", show(&e1), show(&e2)))));
         }
         let mtime = md.modified().map_err(|e| e.to_string())?;
+        // (0) the file is not modified, but things around it change: a second name is made, its
+        // permissions and access time change, it is renamed, its content is read, its descriptor
+        // is duplicated. Length, modification time and identity stay what they were, so every
+        // instance must carry the same tag.
+        {
+            let tag = |c: Crf| c.etag().map(|e| e.as_bytes().to_vec()).unwrap_or_default();
+            let mut seen: Vec<(&str, Vec<u8>)> = Vec::new();
+            std::fs::hard_link(&path, &link).map_err(|e| e.to_string())?;
+            seen.push(("after a second hard link was made", tag(open(&path)?)));
+            seen.push(("through the second hard link", tag(open(&link)?)));
+            {
+                use std::os::unix::fs::PermissionsExt;
+                std::fs::set_permissions(&path, std::fs::Permissions::from_mode(0o640)).map_err(|e| e.to_string())?;
+            }
+            seen.push(("after chmod", tag(open(&path)?)));
+            File::options().write(true).open(&path).and_then(|f| f.set_times(std::fs::FileTimes::new().set_accessed(mtime - std::time::Duration::from_secs(5)))).map_err(|e| e.to_string())?;
+            seen.push(("after its access time was set", tag(open(&path)?)));
+            let moved = dir.0.join("f-moved");
+            std::fs::rename(&path, &moved).map_err(|e| e.to_string())?;
+            seen.push(("after a rename", tag(open(&moved)?)));
+            std::fs::rename(&moved, &path).map_err(|e| e.to_string())?;
+            let _ = std::fs::read(&path).map_err(|e| e.to_string())?;
+            seen.push(("after its content was read", tag(open(&path)?)));
+            let f = File::open(&path).map_err(|e| e.to_string())?;
+            seen.push(("from a duplicated descriptor", tag(Crf::new(f.try_clone().map_err(|e| e.to_string())?, http::HeaderMap::new()).map_err(|e| e.to_string())?)));
+            let md2 = f.metadata().map_err(|e| e.to_string())?;
+            if md2.len() != md.len() || md2.modified().ok() != Some(mtime) || std::os::unix::fs::MetadataExt::ino(&md2) != std::os::unix::fs::MetadataExt::ino(&md) {
+                return Err("the file system changed length / mtime / inode on a metadata-only operation".into());
+            }
+            seen.push(("via new_with_metadata", tag(Crf::new_with_metadata(f, &md2, http::HeaderMap::new()).map_err(|e| e.to_string())?)));
+            for (how, e) in seen {
+                if e != e1 {
+                    return Ok(Some(("etag-unstable|unmodified-file".into(), format!("file not modified (same length, mtime, inode), opened {}: {:?} vs {:?}", how, show(&e1), show(&e)))));
+                }
+            }
+        }
         // (1) length change, mtime restored
         {
             let mut f = File::options().append(true).open(&path).map_err(|e| e.to_string())?;
@@ -480,10 +517,7 @@ fn run_meta(size: u64, sink: &mut Sink) -> (Verdict, Option<u64>, Value) {
             f.set_len(size)?;
             f.set_modified(mtime)
         }).map_err(|e| e.to_string())?;
-        let e = open(&path)?.etag().map(|e| e.as_bytes().to_vec()).unwrap_or_default();
-        if e != e1 {
-            return Ok(Some(("etag-unstable".into(), format!("same inode, length and mtime restored: {:?} vs {:?}", show(&e1), show(&e)))));
-        }
+        // (a file modified and restored is not "unmodified": nothing is demanded of its tag)
         // (2) mtime changes
         for (what, d) in [("+1ns", 1i128), ("-1ns", -1), ("+1s", 1_000_000_000), ("-1s", -1_000_000_000), ("+1s-1ns", 999_999_999)] {
             let t = if d >= 0 { mtime + std::time::Duration::from_nanos(d as u64) } else { mtime - std::time::Duration::from_nanos((-d) as u64) };
